@@ -10,6 +10,7 @@ mkdir -p $OUT
 cp $D/patch.diff $D/demo_test.go $OUT/ 2>/dev/null
 cd /tmp/mutrepo || exit 2
 if ! git diff --quiet; then echo "repo not clean"; exit 2; fi
+git checkout -q --detach $(git -C /repo rev-parse HEAD) || exit 2
 git apply $OUT/patch.diff || { echo "APPLY-FAILED"; exit 2; }
 build=ok; go build ./... >/dev/null 2>&1 || build=FAIL
 suite=pass; go test -vet=off -count=1 ./... >/dev/null 2>&1 || suite=FAIL
@@ -20,7 +21,7 @@ if grep -q '"-race\|go test -race' $D/meta.json 2>/dev/null; then
 fi
 rm -f /tmp/mutrepo/zz_demo_test.go
 start=$(date +%s)
-/verif/check -repo /tmp/mutrepo -workers 10 -noevidence $P quick > $OUT/check.log 2>&1
+/verif/check -repo /tmp/mutrepo -workers 16 -noevidence $P quick > $OUT/check.log 2>&1
 code=$?
 end=$(date +%s)
 git checkout -- . 
@@ -36,6 +37,12 @@ except Exception: m={}
 m.update({"property":P,"name":N,"confirmed":{"builds":build,"existing_suite":suite,"demo_with_change":dw,"demo_without_change":dwo},
           "check":{"cmd":f"/verif/check {P} quick","exit":int(code),"violation_lines":int(viol),"wall_s":int(secs)},
           "caught": int(code)==1 and int(viol)>0})
+import re
+by=[]
+for l in open(f"/verif/seeded/{N}/check.log", errors="replace"):
+    mm=re.match(r"\s+(vfH_\w+): (\S+)", l)
+    if mm and (mm.group(1)+": "+mm.group(2)) not in by: by.append(mm.group(1)+": "+mm.group(2))
+m["caught_by"]=by[:6]
 json.dump(m,open(f"/verif/seeded/{N}/meta.json","w"),indent=1)
 print(N, "build",build,"suite",suite,"demo_with",dw,"demo_without",dwo,"check_exit",code,"violations",viol,"secs",secs, "CAUGHT" if m["caught"] else "MISSED")
 PY
